@@ -46,7 +46,7 @@ def show(n, base):
 def gen_int(rng, limit_bits=63):
     r = rng.random()
     if r < 0.3:
-        k = rng.randint(0, limit_bits - 1)
+        k = rng.randint(0, limit_bits)          # k = limit_bits: the largest literal the reader accepts (2^63 - 1 after the clamp below)
         n = (1 << k) + rng.choice([-1, 0, 1])
     elif r < 0.55:
         n = rng.randint(0, 4096)
@@ -198,7 +198,7 @@ def run_shard(ctx):
             else:
                 res.violation('base:in-unit-code', 'with the unit codes {value} / 0x10, {value} * 0x10, {value} / 0b100, {value} * 0o4 the line %r should give %r, got %s' % (text, want, mon.describe(slot)),
                               {'lang': 'en', 'text': text, 'ops': fam_setup + [{'op': 'execute', 'c': 6, 'lang': 'en', 'text': text}]})
-        rs = mon.run_lines(drv, cfg, items)
+        rs = mon.run_lines(drv, cfg, items, dates=False)
         second, second_meta = [], []
         for (text, want_n, want_base, cls), r in zip(meta, rs):
             slot = mon.last_slot(r) if '\n' in text else mon.slot0(r)
@@ -231,7 +231,8 @@ def run_shard(ctx):
                     problem = 'number kept base %s, expected %s' % (slot['v']['t'], TYPE_OF[want_base])
                 else:
                     out = slot['out']
-                    shown_int = int(wantf)
+                    # the literals just below 2^63 are held as the double 2^63 and print as the largest literal the reader accepts
+                    shown_int = min(int(wantf), 2**63 - 1)
                     if wantf != shown_int and cls == 'arith-chain':
                         res.count('fractional_based_results_print_not_judged')
                     elif want_base == 10:
@@ -242,7 +243,7 @@ def run_shard(ctx):
                         exp = show(shown_int, want_base)
                         if out != exp:
                             problem = 'prints %r, expected %r' % (out, exp)
-                        elif shown_int <= 2**53:
+                        else:
                             second.append(('en', out))
                             second_meta.append((text, out, shown_int, want_base))
             if problem is None:
@@ -257,7 +258,7 @@ def run_shard(ctx):
                           {'config': cfg, 'lang': 'en', 'text': text, 'expected_integer': want_n, 'observed': mon.describe(slot),
                            'ops': mon.gh.config_ops(cfg) + [{'op': 'execute', 'lang': 'en', 'text': text}]})
         if second:
-            rs2 = mon.run_lines(drv, cfg, second)
+            rs2 = mon.run_lines(drv, cfg, second, dates=False)
             for (text, out, n, base), r in zip(second_meta, rs2):
                 slot = mon.slot0(r)
                 res.cases += 1
